@@ -4,9 +4,15 @@ package main
 
 import (
 	"bufio"
+	"context"
 	"fmt"
 	"sort"
 	"strings"
+	"sync"
+	"testing/synctest"
+	"time"
+
+	"github.com/refraction-networking/uquic/qlogwriter"
 
 	quic "github.com/refraction-networking/uquic"
 	u "github.com/refraction-networking/uquic/internal/verifutil"
@@ -451,6 +457,12 @@ func runStreamsGlue(w *bufio.Writer, seed uint64, n int, _ []string) {
 	r := u.NewRng(seed)
 	dist := map[string]int{}
 	failed := map[string]bool{}
+	for _, clientViolates := range []bool{true, false} {
+		for _, tracer := range []bool{false, true} {
+			smgSim(w, clientViolates, tracer, !clientViolates)
+			dist["simulated-connections"]++
+		}
+	}
 	for _, client := range []bool{false, true} {
 		for _, tracer := range []bool{false, true} {
 			pb, pu := smFirst(false, !client), smFirst(true, !client)
@@ -635,5 +647,132 @@ func runStreamsGlue(w *bufio.Writer, seed uint64, n int, _ []string) {
 	sort.Strings(keys)
 	for _, k := range keys {
 		fmt.Fprintf(w, "DIST\t%s\t%d\n", k, dist[k])
+	}
+}
+
+// smgSim: a whole simulated connection (real client, real server, simnet inside a synctest bubble).
+// One endpoint is misled about its peer's stream limit (1) and opens a second stream; it writes on
+// the stream beyond the limit first and on the valid stream second, so both STREAM frames travel
+// in one packet: [STREAM beyond the limit][valid STREAM]. The enforcing endpoint has a qlog tracer
+// or not. Monitor: the enforcing endpoint closes the connection with STREAM_LIMIT_ERROR, the
+// violator learns it from the CONNECTION_CLOSE on the wire, and the stream beyond the limit is
+// never handed to the application.
+func smgSim(w *bufio.Writer, clientViolates, tracer, uni bool) {
+	detail := fmt.Sprintf("simulated connection: violator=%s enforcing-endpoint-has-qlog-tracer=%v uni=%v; the peer allows 1 stream; the violator opens 2, writes on the 2nd, then on the 1st (one packet: [STREAM beyond the limit][valid STREAM])",
+		map[bool]string{true: "client", false: "server"}[clientViolates], tracer, uni)
+	fail := func(key, desc string) {
+		fmt.Fprintf(w, "MONFAIL\tstreamsglue/sim/%s\t%s\t%s\n", key, desc, detail)
+	}
+	err := inBubble(func() {
+		enf := &quic.Config{MaxIncomingStreams: 1, MaxIncomingUniStreams: 1}
+		if tracer {
+			enf.Tracer = func(context.Context, bool, quic.ConnectionID) qlogwriter.Trace { return quic.VerifSGNewTrace() }
+		}
+		vio := &quic.Config{}
+		o := simOpts{PlainPath: true, ServerConf: enf, ClientConf: vio}
+		if !clientViolates {
+			o.ServerConf, o.ClientConf = vio, enf
+		}
+		e, err := newSimEnv(o)
+		if err != nil {
+			fail("setup", err.Error())
+			return
+		}
+		defer e.Close()
+		ctx, cancel := context.WithTimeout(context.Background(), 5*time.Second)
+		defer cancel()
+		var srv *quic.Conn
+		acc := make(chan struct{})
+		go func() {
+			defer close(acc)
+			srv, _ = e.Ln.Accept(ctx)
+		}()
+		cli, err := e.Dial(ctx)
+		if err != nil {
+			fail("setup", "dial: "+err.Error())
+			return
+		}
+		<-acc
+		if srv == nil {
+			fail("setup", "accept failed")
+			return
+		}
+		select {
+		case <-cli.HandshakeComplete():
+		case <-ctx.Done():
+		}
+		violator, enforcer := cli, srv
+		if !clientViolates {
+			violator, enforcer = srv, cli
+		}
+		time.Sleep(100 * time.Millisecond)
+		quic.VerifSGMisleadLimit(violator, uni, 2)
+		type wr interface{ Write([]byte) (int, error) }
+		var s1, s2 wr
+		var e1, e2 error
+		if uni {
+			s1, e1 = violator.OpenUniStream()
+			s2, e2 = violator.OpenUniStream()
+		} else {
+			s1, e1 = violator.OpenStream()
+			s2, e2 = violator.OpenStream()
+		}
+		if e1 != nil || e2 != nil {
+			fail("setup", fmt.Sprintf("open: %v %v", e1, e2))
+			return
+		}
+		// the application of the enforcing endpoint accepts whatever it is given
+		var got []int64
+		var mu sync.Mutex
+		actx, acancel := context.WithCancel(context.Background())
+		defer acancel()
+		go func() {
+			for {
+				var id int64
+				if uni {
+					s, err := enforcer.AcceptUniStream(actx)
+					if err != nil {
+						return
+					}
+					id = int64(s.StreamID())
+				} else {
+					s, err := enforcer.AcceptStream(actx)
+					if err != nil {
+						return
+					}
+					id = int64(s.StreamID())
+				}
+				mu.Lock()
+				got = append(got, id)
+				mu.Unlock()
+			}
+		}()
+		s2.Write([]byte("beyond the limit"))
+		s1.Write([]byte("valid"))
+		time.Sleep(2 * time.Second)
+		synctest.Wait()
+		_, ec, etext := quic.VerifSGCloseClass(context.Cause(enforcer.Context()))
+		vr, vc, vtext := quic.VerifSGCloseClass(context.Cause(violator.Context()))
+		if enforcer.Context().Err() == nil {
+			fail("limit-violation-not-closed", "the peer used a stream beyond the advertised limit, but the connection stays open")
+		} else if ec != 2 {
+			fail("wrong-close-error", "the enforcing endpoint closed with "+etext+" instead of STREAM_LIMIT_ERROR")
+		}
+		if violator.Context().Err() != nil && !(vr && vc == 2) {
+			fail("peer-not-told", "the violator's connection ended with "+vtext+" instead of the peer's STREAM_LIMIT_ERROR")
+		}
+		mu.Lock()
+		for _, id := range got {
+			if id/4 >= 1 {
+				fail("stream-delivered-beyond-limit", fmt.Sprintf("stream %d (beyond the limit of 1) was handed to the application", id))
+			}
+		}
+		mu.Unlock()
+		acancel()
+		cli.CloseWithError(0, "")
+		srv.CloseWithError(0, "")
+	})
+	if err != nil {
+		fail("bubble", err.Error())
 	}
 }
